@@ -49,6 +49,10 @@ func RunC14(tier string) int {
 			case 3:
 				if len(t.AllOuts()) > 0 {
 					t.OmitIf = "markers/omit_" + t.Name
+					if outs := t.AllOuts(); len(outs) >= 2 && r.Chance(1, 2) {
+						// only one of the declared outputs goes missing
+						t.Omit = outs[r.Intn(len(outs))].Path
+					}
 				}
 			case 4:
 				t.SleepIf = "markers/slow_" + t.Name
